@@ -40,6 +40,9 @@ def run(rep, tier):
     # every exact predicate this property rests on is a sign of the orientation kernel (rules shared with C03)
     from . import c03 as _c03
     _c03.kernel_rules(rep, F, "R12.9")
+    # closest_of compares Euclidean distances of the candidates: the point kernel must not overflow / underflow (table shared with C07)
+    from . import c07 as _c07
+    _c07.point_kernel(rep, F, rule="R12.10")
 
 
 def intersection_rule(rep, F):
